@@ -1,7 +1,8 @@
 """Translator: grid/ngrid.py (MultiDomainGrid, _chunked_iterator) -> Gen/NGrid.lean.
 
 AST based, statement by statement.  Carried: `MultiDomainGrid.__init__` (guards and the attributes it
-sets), the properties `num_domains`, `size`, `weights`, `points`, the method `integrate` (both the
+sets), the properties `num_domains`, `size`, `weights`, `points`, the refusing methods `get_localgrid` and
+`moments` (signature with every default value, and the `raise`), the method `integrate` (both the
 point-by-point route with its two chunked generators and the vectorised route with the single-domain
 shortcut, the repeated-grid mode and the `grid_list[:-1]` / `grid_list[-1]` split) and the generator
 function `_chunked_iterator`.
@@ -38,7 +39,8 @@ def _fail(node, why):
     raise Untranslatable(f"ngrid.py line {getattr(node, 'lineno', '?')}: {why}: {ast.unparse(node)[:140]}")
 
 
-EXC = {"ValueError": "valueError", "TypeError": "typeError", "IndexError": "indexError"}
+EXC = {"ValueError": "valueError", "TypeError": "typeError", "IndexError": "indexError",
+       "NotImplementedError": "notImplementedError"}
 PURE_PROPS = {"num_domains"}                       # properties that cannot raise
 GRID_FIELDS = {"weights", "points", "size"}        # attributes of a basegrid.Grid
 
@@ -467,6 +469,64 @@ def translate_generator(tree):
     return out + [""]
 
 
+ANNOT = {"int": "Int", "str": "String", "bool": "Bool", "float": "K"}
+
+
+def translate_refusing(cls, name):
+    """A method whose whole body is `raise E(...)` (`get_localgrid`, `moments`): the signature is carried
+    (parameter names and order, the annotations `int` / `str` / `bool`, every default value as a Lean default
+    argument), the body statement by statement through `Tr`.  A parameter without annotation, or annotated
+    `np.ndarray`, gets a type variable of its own (the method never looks at it); the result type is a type
+    variable too (nothing is returned).  Any other statement in the body -- the method does something now --
+    is outside the carried subset."""
+    f = _method(cls, name)
+    a = f.args
+    if a.vararg or a.kwarg or a.kwonlyargs or a.posonlyargs or not a.args or a.args[0].arg != "self":
+        raise Untranslatable(f"MultiDomainGrid.{name}: unsupported signature")
+    params = a.args[1:]
+    defaults = [None] * (len(params) - len(a.defaults)) + list(a.defaults)
+    binders, tyvars, sig = [], [], []
+    for prm, d in zip(params, defaults):
+        ann = ast.unparse(prm.annotation) if prm.annotation is not None else None
+        if ann in ANNOT:
+            ty = ANNOT[ann]
+        elif ann in (None, "np.ndarray"):
+            ty = f"τ_{prm.arg}"
+            tyvars.append(ty)
+        else:
+            _fail(prm, "unsupported annotation")
+        dv = ""
+        if d is not None:
+            if not isinstance(d, ast.Constant) or isinstance(d.value, float) or d.value is None:
+                _fail(d, "unsupported default value")
+            if ty.startswith("τ_"):
+                _fail(d, "default value of a parameter without a carried type")
+            if {"Int": int, "String": str, "Bool": bool}.get(ty) is not type(d.value):
+                _fail(d, "default value does not match the annotation")
+            dv = " := " + Tr({}).expr(d)
+        binders.append(f"({prm.arg} : {ty}{dv})")
+        sig.append(prm.arg + (": " + ann if ann else "") + (" = " + ast.unparse(d) if d is not None else ""))
+    body = [s for s in f.body if not (isinstance(s, ast.Expr) and isinstance(s.value, ast.Constant) and isinstance(s.value.value, str))]
+    if len(body) != 1 or not isinstance(body[0], ast.Raise):
+        raise Untranslatable(f"MultiDomainGrid.{name}: the body is no longer a single `raise` (line {f.lineno}); "
+                             "a method that does something is outside the carried subset")
+    tr = Tr({"self": "self", **{prm.arg: prm.arg for prm in params}})
+    tr.fields, tr.mutnames = [], set()
+    lines = tr.block(body, 2)
+    tv = " ".join(tyvars + ["ρ"])
+    out = [f"/-- `MultiDomainGrid.{name}({', '.join(sig)})`: refuses. -/",
+           f"def MultiDomainGrid.{name} {{{tv} : Type}} (self : MultiDomainGrid α K)"]
+    line = "   "
+    for b in binders:
+        if len(line) + len(b) > 108:
+            out.append(line)
+            line = "   "
+        line += " " + b
+    out.append(line + " :")
+    out.append("    Except Err ρ := do")
+    return out + lines + [""]
+
+
 def translate():
     tree = ast.parse((SRC / "ngrid.py").read_text())
     imports = sorted(ast.unparse(x) for x in tree.body if isinstance(x, (ast.Import, ast.ImportFrom)))
@@ -537,12 +597,14 @@ def translate():
             "    (integrand_function : Integrand α K) (non_vectorized : Bool) (integration_chunk_size : Nat) :",
             "    Except Err K := do"]
     out += body + [""]
+    for name in ("get_localgrid", "moments"):
+        out += translate_refusing(cls, name)
     gen = translate_generator(tree)
     return "\n".join(gen + out)
 
 
 def generate():
-    text = HEADER.format(name="ngrid", source="src/grid/ngrid.py (MultiDomainGrid.__init__, num_domains, size, weights, points, integrate; _chunked_iterator)")
+    text = HEADER.format(name="ngrid", source="src/grid/ngrid.py (MultiDomainGrid.__init__, num_domains, size, weights, points, integrate, get_localgrid, moments; _chunked_iterator)")
     text += ("import GridVerif.Model.NGrid\n\nset_option linter.unusedVariables false\n\nnamespace GridVerif.Gen.NGrid\n"
              "open GridVerif.NGrid\n\nvariable {α K : Type}\n\n")
     text += translate()
